@@ -110,10 +110,18 @@ def failing_decls(log: str) -> list[str]:
     return sorted(set(out))
 
 
+# the module that carries every obligation of a property (default PestModel.Props.<ID>)
+PROP_MODULE = {"C10": "PestModel.Props.C10Exact"}
+
+
+def prop_module(prop: str) -> str:
+    return PROP_MODULE.get(prop, f"PestModel.Props.{prop}")
+
+
 def audit(prop: str, theorems: list[str]) -> dict[str, list[str] | None]:
     """`#print axioms` for each theorem.  Returns name -> axiom list (None = not found / error)."""
     WORK.mkdir(exist_ok=True)
-    mod = f"PestModel.Props.{prop}"
+    mod = prop_module(prop)
     src = f"import {mod}\n" + "".join(f"#print axioms {t}\n" for t in theorems)
     f = WORK / f"Audit_{prop}_{os.getpid()}.lean"
     f.write_text(src)
@@ -284,7 +292,7 @@ def proof_stage(out: Outcome, prop: str, theorems: list[str], extra_targets: lis
     """Steps 1–2 of DESIGN §5: build the property's module and the driver, audit axioms.
     Returns a dict describing which obligations are discharged; never decides the verdict
     (a broken proof is not by itself a violation: the caller runs the failing-input search)."""
-    targets = [f"PestModel.Props.{prop}", "pestdriver", *(extra_targets or [])]
+    targets = [prop_module(prop), "pestdriver", *(extra_targets or [])]
     ok, log = lake_build(targets)
     info: dict = {"build_ok": ok, "obligations": len(theorems), "discharged": 0, "broken": []}
     if not ok:
@@ -304,18 +312,18 @@ def proof_stage(out: Outcome, prop: str, theorems: list[str], extra_targets: lis
             bad.append(f"{t}: axioms {a}")
         else:
             info["discharged"] += 1
-    forb = grep_forbidden(f"PestModel.Props.{prop}")
+    forb = grep_forbidden(prop_module(prop))
     if forb:
         bad.extend("forbidden: " + h for h in forb)
     info["axioms"] = {t: a for t, a in ax.items()}
     info["broken"] = bad
     if out.tier == "thorough":
         p = subprocess.run(
-            ["lake", "env", "leanchecker", f"PestModel.Props.{prop}"], cwd=LEAN, capture_output=True, text=True
+            ["lake", "env", "leanchecker", prop_module(prop)], cwd=LEAN, capture_output=True, text=True
         )
         info["leanchecker"] = "ok" if p.returncode == 0 else (p.stdout + p.stderr)[-500:]
         if p.returncode != 0:
-            info["broken"].append("leanchecker rejected PestModel.Props." + prop)
+            info["broken"].append("leanchecker rejected " + prop_module(prop))
     return info
 
 
@@ -323,7 +331,7 @@ def proof_coverage(info: dict, prop: str) -> dict:
     return {
         "obligations": info["obligations"],
         "discharged": info["discharged"],
-        "checker_cmd": f"cd lean && lake build PestModel.Props.{prop} && lake env lean <#print axioms for each obligation>",
+        "checker_cmd": f"cd lean && lake build {prop_module(prop)} && lake env lean <#print axioms for each obligation>",
         "trusted_base": TRUSTED_BASE,
         "axioms": info.get("axioms", {}),
         "broken_obligations": info.get("broken", []),
